@@ -231,7 +231,11 @@ class SigmaString(SigmaType):
                 if e_len > start:
                     # else:
                     if end < e_len:  # end lies within this string part
-                        return self.__class__(e[start : cast(int, end)])
+                        # The part is already parsed: it must not be parsed again, as this would
+                        # turn its plain '*', '?' and '\\' characters into special characters.
+                        part = self.__class__()
+                        part.s = [e[start : cast(int, end)]]
+                        return part
                     else:  # end lies behind the current string part
                         result.append(e[start:])
                         # end -= start
